@@ -1,6 +1,36 @@
-(* C02 -- FullscreenWindow: after every render the screen equals the array. (theorems under construction) *)
-From Curtsies Require Import Model.Base Spec.Term Spec.Show Model.Fullscreen.
+(* C02 -- FullscreenWindow: after every render the screen equals the array.
+   [fs_render] is the model of FullscreenWindow.render_to_terminal, [execs] the
+   reference terminal, [shows] "row i of the array on screen row i, every other
+   cell blank and unformatted". *)
+From Curtsies Require Import Model.Base Spec.Sgr Spec.Term Spec.Show Model.Fullscreen Proofs.Fullscreen.
 Close Scope N_scope.
-Lemma C02_placeholder_partial : fs_init true = mkFs true [] None.
-Proof. reflexivity. Qed.
-Print Assumptions C02_placeholder_partial.
+
+(* one render, from any state the invariant allows (any cache, any screen junk after a size change) *)
+Theorem C02_render_shows_array :
+  forall ws t a cur,
+    Inv ws t -> Forall (fun l => clean l = true) a -> fst cur < t_h t -> snd cur < t_w t ->
+    exists t', execs t (fst (fs_render ws (t_h t) (t_w t) a cur)) = Some t'
+      /\ Inv (snd (fs_render ws (t_h t) (t_w t) a cur)) t'
+      /\ TermLemmas.same_frame t t'
+      /\ shows t' a
+      /\ t_row t' = fst cur /\ t_col t' = snd cur
+      /\ scrolled t' = scrolled t
+      /\ t_visible t' = (if fw_hide ws then t_visible t else true).
+Proof. exact fs_render_correct. Qed.
+Print Assumptions C02_render_shows_array.
+
+(* every history of renders and resizes: the post-condition holds after EVERY render *)
+Theorem C02_all_histories :
+  forall ops ws t,
+    Inv ws t -> valid_hist (fw_last ws) (t_h t) (t_w t) (t_in_alt t) ops -> all_renders_ok ws t ops.
+Proof. exact fs_histories. Qed.
+Print Assumptions C02_all_histories.
+
+(* starting from __enter__ on any terminal (hide_cursor on or off) *)
+Theorem C02_from_enter :
+  forall hide t ops,
+    t_sgr t = sgr_default -> 1 <= t_h t -> 1 <= t_w t ->
+    exists t0, execs t (fs_enter (fs_init hide)) = Some t0 /\ t_in_alt t0 = true /\
+      (valid_hist None (t_h t0) (t_w t0) true ops -> all_renders_ok (fs_init hide) t0 ops).
+Proof. exact fs_histories_from_enter. Qed.
+Print Assumptions C02_from_enter.
